@@ -1,10 +1,115 @@
-/- Driver for `kind = "c20"` (and `"c20:…"`) cases. -/
+/- Driver for `kind = "c20:…"` cases:
+   c20:buf  — operation sequences on SecretBytes (Model A, `AskarModel/Model/SecretBuf.lean`)
+   c20:seal — crypto_box_seal's use of the inner Vec (Model A)
+   c20:fmt / c20:log / c20:key — formatting, log capture, key drop (Model B, `AskarModel/Model/SecretFmt.lean`) -/
 import Driver.Common
+import AskarModel.Model.SecretBuf
+import AskarModel.Model.SecretFmt
 
 open Lean
 
 namespace Driver.C20
+open Askar Askar.SecretBuf
 
-def runCase (_j : Json) : Json := jerr "not implemented"
+/-- data spec `{"s": seed, "n": len}`: byte i = 0x80 + ((s + 37 i + 11 (i / 128)) mod 128) — every content byte has its
+    top bit set, which is what the instrumented allocator looks for in released blocks -/
+def pat (s n : Nat) : List UInt8 :=
+  (List.range n).map fun i => UInt8.ofNat (128 + (s + i * 37 + (i / 128) * 11) % 128)
+
+def data! (j : Json) (k : String) : List UInt8 :=
+  match getD? j k with
+  | some v => pat (nat! v "s") (nat! v "n")
+  | none => []
+
+def parseCtor (j : Json) : Ctor :=
+  match str! j "ctor" with
+  | "with_capacity" => .withCapacity (nat! j "n")
+  | "from" => .fromSlice (data! j "d") (nat! j "extra")
+  | "new_with" => .newWith (data! j "d")
+  | _ => .default
+
+def parseBufOp (j : Json) : Option BufOp :=
+  match str! j "op" with
+  | "ensure" => some (.ensureCapacity (nat! j "n"))
+  | "reserve" => some (.reserve (nat! j "n"))
+  | "extend" => some (.extend (data! j "d"))
+  | "write" => some (.extend (data! j "d"))
+  | "insert" => some (.insert (nat! j "pos") (data! j "d"))
+  | "remove" => some (.remove (nat! j "s") (nat! j "e"))
+  | "resize" => some (.resize (nat! j "n"))
+  | "bextend" => some (.bextend (data! j "d"))
+  | "shrink" => some .shrink
+  | "clear" => some .clear
+  | "zeroize" => some .zeroize
+  | _ => none
+
+def parseOp (j : Json) : Option Op :=
+  match str! j "op" with
+  | "new" => some (.new (parseCtor j))
+  | "clone" => some (.clone (nat! j "i"))
+  | "drop" => some (.drop (nat! j "i"))
+  | "into_vec" => some (.intoVec (nat! j "i"))
+  | "into_boxed" => some (.intoBoxed (nat! j "i"))
+  | _ => (parseBufOp j).map (.buf (nat! j "i"))
+
+def resStr : Res → String
+  | .ok => "ok" | .panic => "panic" | .skip => "skip"
+
+def bufJson (diag : Bool) (s : RVec) : List (String × Json) :=
+  [("len", jnat s.len), ("v", jvalue s.data)] ++ (if diag then [("cap", jnat s.cap)] else [])
+
+/-- which slot an operation reports on afterwards (the new one for `new`/`clone`) -/
+def reportSlot (before : St) (after : St) : Op → Option RVec
+  | .new _ | .clone _ => if after.slots.length > before.slots.length then after.slots.getLast? else none
+  | .buf i _ => after.slots[i]?
+  | .drop _ => none
+  | .intoVec i | .intoBoxed i => before.slots[i]?     -- the bytes handed to the caller
+
+def eventJson : Event → Json
+  | .alloc _ n => Json.arr #[.str "a", jnat n]
+  | .free _ cs => Json.arr #[.str "f", jnat cs.length]
+  | .realloc _ cs n => Json.arr #[.str "r", jnat cs.length, jnat n]
+  | .escape _ cs => Json.arr #[.str "e", jnat cs.length]
+
+def dirty (cs : List Cell) : Bool := cs.any (·.isSome)
+
+def runBuf (j : Json) : Json :=
+  let diag := bool! j "diag"
+  let P := Params.std
+  let rec go (st : St) (ops : List Json) (acc : Array Json) : St × Array Json :=
+    match ops with
+    | [] => (st, acc)
+    | o :: rest =>
+      match parseOp o with
+      | none => go st rest (acc.push (Json.mkObj [("r", .str "badop")]))
+      | some op =>
+        let r := step P st op
+        let rep := match r.2 with
+          | .skip => []
+          | _ => match reportSlot st r.1 op with
+            | some s =>
+              (match op with
+               | .intoVec _ | .intoBoxed _ => [("len", jnat s.len), ("v", jvalue s.data)]
+               | _ => bufJson diag s)
+            | none => []
+        go r.1 rest (acc.push (Json.mkObj ([("r", Json.str (resStr r.2))] ++ rep)))
+  let (st, outs) := go St.init (arr! j "ops") #[]
+  let h := dropAll st.slots st.heap
+  let evs := h.log.reverse
+  let dirtyFree := (evs.filter fun e => match e with | .free _ cs => dirty cs | _ => false).length
+  let reallocData := (evs.filter fun e => match e with | .realloc _ cs _ => dirty cs | _ => false).length
+  let fin := [("final", Json.arr (st.slots.map fun s => Json.mkObj (bufJson diag s)).toArray),
+              ("dirty_free", jnat dirtyFree), ("realloc_data", jnat reallocData)] ++
+             (if diag then [("trace", Json.arr (evs.map eventJson).toArray)] else [])
+  Json.arr (outs.push (Json.mkObj fin))
+
+def runCase (j : Json) : Json :=
+  match str! j "kind" with
+  | "c20:buf" => runBuf j
+  | "c20:seal" => Askar.SecretFmt.Driver.runSeal (nat! j "n")
+  | "c20:fmt" => Askar.SecretFmt.Driver.runFmt (str! j "ty")
+  | "c20:log" => Askar.SecretFmt.Driver.runLog (str! j "scenario")
+  | "c20:key" => Askar.SecretFmt.Driver.runKey (str! j "ty")
+  | k => jerr ("unknown kind " ++ k)
 
 end Driver.C20
